@@ -55,8 +55,14 @@ func vSpecEq(a, b ConfigSpec) bool {
 // all ids, KEMs, key lengths {0,1,4,32}, up to 3 suites and public names of
 // length 1..8 and the boundary lengths 239, 240, 254, 255; lengths 0 and 256 are refused.
 func verifC11Encode() {
-	s := vSpec([]int{1, 2, 3, 8, 239, 240, 254, 255}, []int{0, 1, 4, 32}, 3)
+	s := vSpec([]int{1, 2, 3, 8, 239, 240, 254, 255}, []int{0, 1, 4, 32, 1216}, 3) // (1216: an X25519MLKEM768 share)
 	got, err := s.Bytes()
+	if len(s.PublicKey) == 0 || len(s.CipherSuites) == 0 {
+		// public_key<1..2^16-1> and cipher_suites<4..2^16-4>: a spec without a key or without suites has no well-formed encoding
+		vAssert(err != nil, "a spec without a public key or without cipher suites is refused")
+		vReach("malformed-refused")
+		return
+	}
 	vAssert(err == nil, "Bytes succeeds for a 1..255 byte public name")
 	want := vRefConfig(s)
 	vAssert(vBytesEq(got, want), "Bytes equals the section 4 layout")
@@ -87,7 +93,8 @@ func verifC11List() {
 	var cfgs []Config
 	var ref []byte
 	for i := 0; i < n; i++ {
-		s := vSpec([]int{1, 3}, []int{0, 32}, 2)
+		s := vSpec([]int{1, 3}, []int{1, 32}, 2)
+		vAssume(len(s.CipherSuites) > 0)
 		b, err := s.Bytes()
 		vAssert(err == nil, "Bytes")
 		specs = append(specs, s)
